@@ -35,6 +35,8 @@ import AutosarVerif.Lemmas.IndexReach
 import AutosarVerif.Lemmas.StepX
 import AutosarVerif.Lemmas.Iter
 import AutosarVerif.Lemmas.MoveOp
+import AutosarVerif.Lemmas.LoadMerge
+import AutosarVerif.Lemmas.StepLM
 
 namespace AV.C03
 open AV.W AV.W.Items
@@ -129,5 +131,24 @@ theorem C03_no_element_shared_reachable (S : Spec) (V : Env) (vOk : Nat) (rootAt
 /-- `move_element_here` inside one model keeps the forest well-formed (also on its one partial-failure branch)
 `theorem opMove_wf (w : World) (p x : Nat) (pos? : Option Nat) (hw : w.wf) : (opMove S V w p x pos?).1.wf` -/
 theorem C03_move_keeps_tree : type_of% @AV.W.opMove_wf := @AV.W.opMove_wf
+
+
+/-! ### added at the end of the third session (proof pack LM): restated by name
+(`type_of%` keeps the statement identical to the lemma; the signature is quoted in the comment) -/
+
+/-- **merging loads**: the content `merge_element` returns - also when it stops with an error - is a well-formed forest below the model's element
+`theorem mergeElement_wf (fver : Nat → Option Nat) (newFile minVerB : Nat) (fuel : Nat) : ∀ (ha : Hdr) (ka : Items) (files : List Nat) (kb : Items) (expB : PRef), ka.wf (.elem ha.id) → kb.wf expB → (mergeElement S V fver newFile minVerB fuel ha ka files kb).1.wf (.elem ha.id)` -/
+theorem C03_merge_keeps_the_forest_well_formed : type_of% @AV.W.mergeElement_wf := @AV.W.mergeElement_wf
+
+/-- `theorem renumItems_nodup (hn : root1.ids.Nodup) : (renumItems base (newIds base root1) root1).ids.Nodup` -/
+theorem C03_renumbering_keeps_ids_unique : type_of% @AV.W.renumItems_nodup := @AV.W.renumItems_nodup
+
+/-- an accepted load into a model that already has files keeps `Inv` (tree well-formed, ids unique, file-set invariant)
+`theorem opLoad_merge_inv (w : World) (k : Nat) (m : Model) (name : Bytes) (strict : Bool) (buf : Bytes) (hm : w.models[k]? = some m) (hne : m.files.isEmpty = false) (hn : m.rootKids.ids.Nodup) (hi : Inv w) : Inv (opLoad S V nmAutosar w k name strict buf).1` -/
+theorem C03_merging_load_keeps_tree_and_file_sets : type_of% @AV.W.opLoad_merge_inv := @AV.W.opLoad_merge_inv
+
+/-- **fifth alphabet** `ReachLM` (`Lemmas/StepLM.lean`): histories of `ReachL` (core operations, rename, sort, set_reference_target, move, copy, first loads) continued by core operations, rename, sort, set_reference_target and MERGING loads: the tree is well-formed, ids unique, file sets consistent in every reachable state
+`theorem reachLM_inv (hH : IdxHyp S V vOk) (hR : RefWF S) (hv32 : vOk &&& 0xFFFFFFFF = vOk) (hroot : nmAutosar ≠ S.nmShortName) (hNoSub : ∀ t, S.isRef t = true → S.subCount t = 0) {w : World} (h : ReachLM S V vOk rootAttrs nmAutosar w) : Inv w` -/
+theorem C03_invariant_with_merging_loads : type_of% @AV.W.reachLM_inv := @AV.W.reachLM_inv
 
 end AV.C03
